@@ -3,6 +3,7 @@ import itertools
 
 import numpy as np
 
+from pbv import gen
 from pbv.core import Borderline, Violation, require, require_close, subcheck
 from pbv.oracles import alignment as oa
 
@@ -50,6 +51,10 @@ def cast_mask(d, mask):
         return mask.astype(np.float32), dt
     binary = mask > 0.25
     return binary.astype(np.int8 if dt == 'int8' else np.int64), dt
+
+
+def permute_layout(d, mask):
+    return gen.vary(d, mask, 161)
 
 
 def permute(mask, field):
@@ -109,7 +114,7 @@ def greedy_restores_consistency(d, ctx):
     rng = d.rng()
     mask = scene(d, rng, K, F, T)
     field, fk = draw_field(d, rng, K, F)
-    mixed = permute(mask, field)
+    mixed = permute_layout(d, permute(mask, field))
     mixed, dt = cast_mask(d, mixed)
     metric = d.choice(['cos', 'euclidean', 'multiply'])
     aligner = pa.GreedyPermutationAlignment(similarity_metric=metric)
@@ -168,7 +173,7 @@ def dhtv_restores_consistency(d, ctx):
         covered[b:e] = True
     mask = scene(d, rng, K, F, T)
     field, fk = draw_field(d, rng, K, F, first_segment=first)
-    mixed = permute(mask, field)
+    mixed = permute_layout(d, permute(mask, field))
     mixed, dt = cast_mask(d, mixed)
     ctx.describe(K=K, F=F, T=T, field=fk, config=cfg, first_segment=first, dtype=dt)
     ctx.label(f'K={K}', f'F={F}', fk, 'default' if 'default' in cfg else 'custom',
